@@ -401,3 +401,55 @@ Proof.
   destruct Hx as [_ Hx]. apply mem_In in Hx. unfold needs_of in Hx. apply in_flat_map in Hx. exact Hx.
 Qed.
 End Pkg.
+
+(* ---- needs_wf is not an assumption for classes DERIVED from their fields ---- *)
+Lemma base_needs_cases b x : In x (base_needs b) ->
+  In x std_preamble \/ (exists e, b = BEnum e /\ x = enum_item e) \/
+  (exists ty ser par hs, b = BCustom ty ser par hs /\ (In x (opt_item ty) \/ In x (opt_item ser))).
+Proof.
+  destruct b as [| | |e|n|ty ser par hs]; simpl; intro H; try (destruct H; fail).
+  - destruct H as [<-|[]]. left. simpl. tauto.
+  - destruct H as [<-|[]]. left. simpl. tauto.
+  - destruct H as [<-|[]]. right. left. exists e. split; reflexivity.
+  - apply in_app_or in H. destruct H as [H|H].
+    + right. right. exists ty, ser, par, hs. split; [reflexivity | left; exact H].
+    + destruct hs; [|destruct H]. destruct H as [<-|[<-|H]].
+      * left. simpl. tauto.
+      * left. simpl. tauto.
+      * right. right. exists ty, ser, par, true. split; [reflexivity | right; exact H].
+Qed.
+
+Lemma derived_field_wf snake f x : In x (field_needs snake f) ->
+  In x std_preamble \/ (exists e, In e (field_enums f) /\ x = enum_item e) \/ In x (field_scalar_items f).
+Proof.
+  unfold field_needs. rewrite !in_app_iff. intros [H|[H|[H|H]]].
+  - destruct (if_nullable f); [|destruct H]. destruct H as [<-|[]]. left. simpl. tauto.
+  - destruct (if_list f); [|destruct H]. destruct H as [<-|[]]. left. simpl. tauto.
+  - destruct (base_needs_cases _ _ H) as [H1|[[e [Hb ->]]|[ty [ser [par [hs [Hb H1]]]]]]].
+    + left. exact H1.
+    + right. left. exists e. split; [|reflexivity]. unfold field_enums. rewrite Hb. left. reflexivity.
+    + right. right. unfold field_scalar_items. rewrite Hb. rewrite !in_app_iff. tauto.
+  - destruct (aliased snake (if_name f) || if_coll_default f); [|destruct H]. destruct H as [<-|[]]. left. simpl. tauto.
+Qed.
+
+Theorem derived_needs_wf {A} (p : pkg A) : incl std_preamble (p_preamble p) ->
+  (forall d, In d (p_inputs p) -> exists snake fs, d = derive snake (i_name d) (i_body d) fs) -> needs_wf p.
+Proof.
+  intros Hpre Hder d Hd x Hx. destruct (Hder d Hd) as [snake [fs E]]. rewrite E in Hx |- *. simpl in Hx |- *.
+  destruct Hx as [<-|Hx]; [left; apply Hpre; simpl; tauto|].
+  apply in_flat_map in Hx. destruct Hx as [f [Hf Hx]].
+  destruct (derived_field_wf _ _ _ Hx) as [H|[[e [He ->]]|H]].
+  - left. apply Hpre. exact H.
+  - right. left. exists e. split; [|reflexivity]. apply in_flat_map. exists f. split; assumption.
+  - right. right. apply in_flat_map. exists f. split; assumption.
+Qed.
+
+(* imports_cover_retained without the needs_wf hypothesis, for derived classes *)
+Corollary derived_imports_cover {A} (p : pkg A) : NoDup (map i_name (p_inputs p)) ->
+  incl std_preamble (p_preamble p) ->
+  (forall d, In d (p_inputs p) -> exists snake fs, d = derive snake (i_name d) (i_body d) fs) ->
+  forall (retained : list (string * A)) d, In d (p_inputs p) -> In (i_name d, i_body d) retained ->
+  forall x, In x (i_needs d) -> In x (module_imports p retained).
+Proof.
+  intros Hn Hpre Hder. apply imports_cover_retained_lemma; [exact Hn|]. apply derived_needs_wf; assumption.
+Qed.
